@@ -1,3 +1,16 @@
 // Pasted into swarm/src/handler.rs (mod verif) under cfg(kani).
 #[allow(unused_imports)]
 use super::*;
+
+// C11: ProtocolsChange helpers compiled against the dependency shims; mounted in
+// the shim tree only (the generated mount file is empty in the plain tree).
+pub(crate) mod c11 {
+    #[allow(unused_imports)]
+    use super::super::*;
+    include!(concat!(env!("LIBP2P_VERIF_GEN"), "/C11/mount.rs"));
+}
+pub(crate) mod c11r {
+    #[allow(unused_imports)]
+    use super::super::*;
+    include!(concat!(env!("LIBP2P_VERIF"), "/units/C11/stream_protocol.rs"));
+}
